@@ -97,6 +97,11 @@ def deg_check(recipe, obj, lts, ctxs, envs, part, U):
             ds = [itg.metadata()["estimated_polynomial_degree"] for idata in fd.integral_data for itg in idata.integrals]
             if ds:
                 ests["compute_form_data"] = max(ds)
+            # integrals that already carry a (stale, too low) estimate in their metadata, as rebuilt preprocessed forms do
+            fd = compute_form_data(obj * ufl.dx(metadata={"estimated_polynomial_degree": 0}), do_estimate_degrees=True)
+            ds = [itg.metadata()["estimated_polynomial_degree"] for idata in fd.integral_data for itg in idata.integrals]
+            if ds:
+                ests["compute_form_data[stale metadata]"] = max(ds)
         except BaseException as e:  # noqa: BLE001
             if isinstance(e, (KeyboardInterrupt, SystemExit, MemoryError)):
                 raise
